@@ -128,24 +128,25 @@ theorem install_result_owned (rel ns : String) (to force : Bool) (manifest : Lis
     · refine ⟨stamp rel ns t, ?_, stamp_owned rel ns t⟩
       have := Store.get?_foldl_put_mem (manifest.map (stamp rel ns)) s (stamp rel ns t)
         (List.mem_map_of_mem ht) hn'
+      rw [filter_norej]
       simpa [stamp_key] using this
     · rename_i hne
       simp only [hne, Bool.false_eq_true, if_false] at hok
-      have hok' : (update force to adopted (manifest.map (stamp rel ns)) s).err = false := by simpa using hok
+      have hok' : (updateR [] force to adopted (manifest.map (stamp rel ns)) s).err = false := by simpa using hok
       -- `update` part: Props/C02 proves the same; repeated here from the lemmas
-      unfold update at hok' ⊢
+      unfold updateR at hok' ⊢
       simp only at hok' ⊢
       split at hok'
       · rename_i he; rw [he] at hok'; cases hok'
       · rename_i he
         simp only [he, Bool.false_eq_true, if_false]
-        have he' : (updateTargets force to adopted (manifest.map (stamp rel ns)) { store := s, log := [] }).err = false := by
+        have he' : (updateTargets force to adopted (manifest.map (stamp rel ns)) { store := s, log := [], rej := [] }).err = false := by
           simpa using he
         obtain ⟨o, ho, hc⟩ := updateTargets_present force to adopted _ _ hn' he' (stamp rel ns t)
           (List.mem_map_of_mem ht)
         refine ⟨o, ?_, owned_of_covers_stamp (hc (by simpa [fullMerge, stamp_typed] using hm))⟩
         rcases deleteRemoved_store (manifest.map (stamp rel ns)) adopted
-          (updateTargets force to adopted (manifest.map (stamp rel ns)) { store := s, log := [] }) t.key with h | h
+          (updateTargets force to adopted (manifest.map (stamp rel ns)) { store := s, log := [], rej := [] }) t.key with h | h
         · rw [h]; exact ho
         · have : ((manifest.map (stamp rel ns)).find? (·.key = t.key)).isSome = true := by
             rw [List.find?_isSome]
@@ -167,21 +168,21 @@ theorem upgrade_result_owned (rel ns : String) (to force : Bool) (current target
   · simp at hok
   · rename_i adopted log hp
     simp only [Bool.false_eq_true, if_false] at hok ⊢
-    have hok' : (update force false (current ++ adopted) (target.map (stamp rel ns)) s).err = false := by
+    have hok' : (updateR [] force false (current ++ adopted) (target.map (stamp rel ns)) s).err = false := by
       simpa using hok
-    unfold update at hok' ⊢
+    unfold updateR at hok' ⊢
     simp only at hok' ⊢
     split at hok'
     · rename_i he; rw [he] at hok'; cases hok'
     · rename_i he
       simp only [he, Bool.false_eq_true, if_false]
-      have he' : (updateTargets force false (current ++ adopted) (target.map (stamp rel ns)) { store := s, log := [] }).err = false := by
+      have he' : (updateTargets force false (current ++ adopted) (target.map (stamp rel ns)) { store := s, log := [], rej := [] }).err = false := by
         simpa using he
       obtain ⟨o, ho, hc⟩ := updateTargets_present force false (current ++ adopted) _ _ hn' he' (stamp rel ns t)
         (List.mem_map_of_mem ht)
       refine ⟨o, ?_, owned_of_covers_stamp (hc (by simpa [fullMerge, stamp_typed] using hm))⟩
       rcases deleteRemoved_store (target.map (stamp rel ns)) (current ++ adopted)
-        (updateTargets force false (current ++ adopted) (target.map (stamp rel ns)) { store := s, log := [] }) t.key with h | h
+        (updateTargets force false (current ++ adopted) (target.map (stamp rel ns)) { store := s, log := [], rej := [] }) t.key with h | h
       · rw [h]; exact ho
       · have : ((target.map (stamp rel ns)).find? (·.key = t.key)).isSome = true := by
           rw [List.find?_isSome]
@@ -192,19 +193,19 @@ theorem upgrade_result_owned (rel ns : String) (to force : Bool) (current target
 
 /-- `Client.update` deletes only objects of the original manifest that the target dropped and
 whose live object does not carry the keep policy. -/
-theorem update_deletes_confined (force three : Bool) (original target : List Obj) (s : Store) :
-    ∀ e ∈ (update force three original target s).log, e.isDelete = true →
+theorem update_deletes_confined (rej : List String) (force three : Bool) (original target : List Obj) (s : Store) :
+    ∀ e ∈ (updateR rej force three original target s).log, e.isDelete = true →
       e.key ∈ keys original ∧ (target.find? (·.key = e.key)).isSome = false := by
   intro e he hd
-  unfold update at he
+  unfold updateR at he
   simp only at he
-  obtain ⟨e1, h1, p1⟩ := updateTargets_log force three original target { store := s, log := [] }
+  obtain ⟨e1, h1, p1⟩ := updateTargets_log force three original target { store := s, log := [], rej := rej }
   split at he
   · rw [h1] at he
     have := (p1 e (by simpa using he)).2
     rw [hd] at this; cases this
   · obtain ⟨e2, h2, p2⟩ := deleteRemoved_log target original
-      (updateTargets force three original target { store := s, log := [] })
+      (updateTargets force three original target { store := s, log := [], rej := rej })
     rw [h2, h1] at he
     simp only [List.nil_append] at he
     rcases List.mem_append.mp he with h | h
@@ -238,7 +239,7 @@ theorem upgrade_deletes_confined (rel ns : String) (to force dry : Bool) (curren
     · rcases List.mem_append.mp he with h | h
       · have := reads_not_delete (hrd e h)
         rw [hd] at this; cases this
-      · obtain ⟨h1, h2⟩ := update_deletes_confined force false (current ++ adopted) _ s e h hd
+      · obtain ⟨h1, h2⟩ := update_deletes_confined [] force false (current ++ adopted) _ s e h hd
         have hnt : e.key ∉ keys target := by
           intro hm
           obtain ⟨x, hx, hxk⟩ := List.mem_map.mp hm
@@ -285,7 +286,7 @@ theorem install_deletes_nothing (rel ns : String) (to force dry : Bool) (manifes
           | false => rfl
           | true =>
             exfalso
-            obtain ⟨h1, h2⟩ := update_deletes_confined force to adopted _ s e h hd
+            obtain ⟨h1, h2⟩ := update_deletes_confined [] force to adopted _ s e h hd
             rw [ha] at h1
             obtain ⟨x, hx, hxk⟩ := List.mem_map.mp h1
             have : ((manifest.map (stamp rel ns)).find? (·.key = e.key)).isSome = true := by
@@ -298,7 +299,7 @@ theorem rollback_deletes_confined (rel ns : String) (force : Bool) (current targ
     ∀ e ∈ (rollbackCluster rel ns force current target s).log, e.isDelete = true → e.key ∈ keys current := by
   intro e he hd
   unfold rollbackCluster at he
-  exact (update_deletes_confined force false current _ s e he hd).1
+  exact (update_deletes_confined [] force false current _ s e he hd).1
 
 /-! ### where the full statement fails -/
 
